@@ -134,6 +134,18 @@ func (r setRules) Less(v1, v2 interface{}) bool {
 	}
 }
 
+// numberSetHashString returns the string used to represent a number in
+// set hash bytes. Two numbers that Equals considers equal must produce the
+// same hash, so this must use the same representation that rawNumberEqual
+// compares: the exact integer value for whole numbers, and otherwise the
+// shortest decimal representation, with negative zero folded into zero.
+func numberSetHashString(f *big.Float) string {
+	if i, acc := f.Int(nil); acc == big.Exact {
+		return i.String() // (an integer zero is always "0", regardless of sign)
+	}
+	return f.Text('f', -1)
+}
+
 func makeSetHashBytes(val Value) ([]byte, ValueMarks) {
 	var buf bytes.Buffer
 	marks := make(ValueMarks)
@@ -187,10 +199,10 @@ func appendSetHashBytes(val Value, buf *bytes.Buffer, marks ValueMarks) {
 		// here just so that we can get far enough along to fix it up for
 		// everything else in this package.
 		if bf, ok := val.v.(big.Float); ok {
-			buf.WriteString(bf.String())
+			buf.WriteString(numberSetHashString(&bf))
 			return
 		}
-		buf.WriteString(val.v.(*big.Float).String())
+		buf.WriteString(numberSetHashString(val.v.(*big.Float)))
 		return
 	case Bool:
 		if val.v.(bool) {
